@@ -87,7 +87,9 @@ def run(rep):
     # the other way a loop ends: hand-over to a self-consuming call issued while earlier calls are still queued
     for lib in gen_impl.LIBS:
         runs += [["consume", lib, ch, "handles=1", "pending=%d" % (ch or 3)] for ch in ((0, 2) if rep.tier == "quick" else (0, 1, 2, 3))]
-    rt_common.impl_side(rep, PID, runs, lambda a, d: probe.oracle_lifecycle(d) if a[0] == "lifecycle" else probe.oracle_consume(d))
+    # "starts exactly one actor thread": the constructor called when the OS refuses a new thread
+    runs += [["nothread", "std", 0], ["nothread", "std", 2]]
+    rt_common.impl_side(rep, PID, runs, lambda a, d: probe.oracle_lifecycle(d) if a[0] == "lifecycle" else probe.oracle_nothread(d) if a[0] == "nothread" else probe.oracle_consume(d))
 
 
 def replay(rep, path):
